@@ -15,7 +15,6 @@ use deno_ast::swc::ast::{
   VarDeclOrExpr, WhileStmt, WithStmt,
 };
 use deno_ast::swc::atoms::Atom;
-use deno_ast::swc::common::SyntaxContext;
 use deno_ast::swc::ecma_visit::noop_visit_type;
 use deno_ast::swc::ecma_visit::{Visit, VisitWith};
 use deno_ast::swc::utils::find_pat_ids;
@@ -80,10 +79,29 @@ impl LintRule for PreferConst {
 
 type Scope = Rc<RefCell<RawScope>>;
 
+/// A variable is identified by its name together with the syntax context the
+/// resolver gave it: one scope of this rule can hold two bindings of the same
+/// name (a `for` head and a `let` in the loop body share a scope here), and a
+/// same-named variable of another declaration must not be mistaken for it.
+#[derive(Debug, Clone, PartialEq, Eq, PartialOrd, Ord)]
+struct VarKey(Atom, u32);
+
+impl VarKey {
+  fn new(ident: &Ident) -> Self {
+    Self(ident.sym.clone(), ident.ctxt.as_u32())
+  }
+}
+
+impl std::fmt::Display for VarKey {
+  fn fmt(&self, f: &mut std::fmt::Formatter) -> std::fmt::Result {
+    self.0.fmt(f)
+  }
+}
+
 #[derive(Debug)]
 struct RawScope {
   parent: Option<Scope>,
-  variables: BTreeMap<Atom, (SyntaxContext, SourceRange)>,
+  variables: BTreeMap<VarKey, SourceRange>,
 }
 
 impl RawScope {
@@ -115,12 +133,7 @@ fn get_decl_by_ident(scope: Scope, ident: &Ident) -> Option<DeclInfo> {
   let mut cur_scope = Some(scope);
   let mut is_current_scope = true;
   while let Some(cur) = cur_scope {
-    // a variable of the same name bound by another declaration (e.g. a `var` or a parameter that is not
-    // tracked here) has a different syntax context
-    if let Some(&(ctxt, range)) = cur.borrow().variables.get(&ident.sym) {
-      if ctxt != ident.ctxt {
-        return None;
-      }
+    if let Some(&range) = cur.borrow().variables.get(&VarKey::new(ident)) {
       return Some(DeclInfo {
         range,
         in_other_scope: !is_current_scope,
@@ -284,7 +297,7 @@ impl VariableCollector {
     let mut scope = self.scopes.get(&self.cur_scope).unwrap().borrow_mut();
     scope
       .variables
-      .insert(ident.sym.clone(), (ident.ctxt, ident.range()));
+      .insert(VarKey::new(ident), ident.range());
   }
 
   fn insert_vars(&mut self, idents: &[&Ident], status: VarStatus) {
